@@ -1,5 +1,6 @@
 """C17 — original-spelling conversion (server kana_alpha::convert) vs the client's romaji engine."""
 import itertools
+import shutil
 import json
 import os
 import re
@@ -97,7 +98,33 @@ def run(run, replay=None):
             fails.append(("total", {"kind": "total", "input": s}, {"input": s, "result": r}))
     if rc != 0 or len(uni_res) != len(uni):
         fails.append(("total", {"kind": "total", "input": "?"}, {"result": "implementation died or hung on the arbitrary-Unicode stream"}))
-    n = {"ascii_only": 0, "keeps_ascii": 0, "units_concat": 0, "katakana": 0, "nfd": 0, "client_inverse": 0, "total_unicode": len(uni)}
+    # the server's RPC glue: GetAlphabeticCandidate must answer exactly what the conversion library answers
+    rpc_n = 0
+    from props import server_common as S
+    sbin = S.build_binaries(run)
+    if sbin is not None:
+        swd = S.workdir("c17")
+        sdic = S.make_dictionary(sbin, swd)
+        srv = S.Server(sbin, sdic, None, workers=4)
+        try:
+            if srv.wait_listening():
+                sample = [x for x in inputs if x and all(c in ASCII for c in x)][:150] + \
+                         ["HTML", "Css3", "A", "Z9", "aB", "USB2", "x1Y"] + inputs[::max(1, len(inputs) // (800 if thorough else 250))]
+                for x in dict.fromkeys(sample):
+                    if conv.get(x) is None:
+                        continue
+                    st, res = srv.rpc("GetAlphabeticCandidate", {"input": x})
+                    rpc_n += 1
+                    got = res["candidates"][0]["candidate"] if st == "ok" and res and res.get("candidates") else None
+                    if got != conv[x]:
+                        fails.append(("rpc-differs", {"kind": "rpc-differs"},
+                                      {"input": x, "GetAlphabeticCandidate": got if st == "ok" else st, "kana_alpha::convert": conv[x]}))
+                        break
+        finally:
+            srv.stop()
+            shutil.rmtree(swd, ignore_errors=True)
+    n = {"ascii_only": 0, "keeps_ascii": 0, "units_concat": 0, "katakana": 0, "nfd": 0, "client_inverse": 0, "total_unicode": len(uni),
+         "rpc_requests": rpc_n}
     units = {h: a for h, k, a in table}
     maxu = max(len(h) for h in units)
     for s in inputs:
